@@ -114,6 +114,54 @@ def validator_early_exits(v):
     return out
 
 
+def fold_swizzle_validator(model, helper, contains_any):
+    """-> (pairs folded, [counter-examples]) or None"""
+    import itertools
+
+    from ..miniev import run_pure
+
+    class Signal(Exception):
+        pass
+
+    calls = {"Utility.ContainsAnyOf": (lambda a, b: run_pure(contains_any, (a, b))), "ContainsAnyOf": (lambda a, b: run_pure(contains_any, (a, b)))}
+    for c in ast.walk(helper):
+        if isinstance(c, ast.Call) and last_attr(c) == "Raise" and isinstance(c.func, ast.Attribute):
+            nm = unparse(c.func.value).split(".")[-1]
+
+            def mk(nm=nm):
+                def raiser(*a):
+                    raise Signal(nm)
+                return raiser
+
+            calls[unparse(c.func)] = mk()
+    letters = "xyzwrgbaq"
+    masks = [m for m in letters] + ["".join(p) for p in itertools.product("xyzwrga", repeat=2)] + ["xyz", "zyx", "xxx", "xyx", "rgb", "bgr", "xyzw", "wzyx", "rgba", "xxyy", "yxyx", "zzzy", "xyzr", "xqx", "rgbx", "xyzwx"]
+    bad = []
+    n = 0
+    for mask in masks:
+        for count in (1, 2, 3, 4):
+            try:
+                run_pure(helper, (mask, count), calls)
+                got = "accepted"
+            except Signal as s:
+                got = str(s)
+            except CannotEval:
+                return None
+            except Exception:
+                return None
+            n += 1
+            idx = {ch: i % 4 for i, ch in enumerate("xyzwrgba")}
+            reasons = set()
+            if any(ch not in idx for ch in mask) or any(idx.get(ch, 0) >= count for ch in mask):
+                reasons.add("INVALID")
+            if any(ch in "xyzw" for ch in mask) and any(ch in "rgba" for ch in mask):
+                reasons.add("MIXED")
+            ok = (got == "accepted") if not reasons else any(r in got for r in reasons)
+            if not ok:
+                bad.append(f"{mask!r} on a {count}-component value: {got}, expected {' or '.join(sorted(r.lower() for r in reasons)) or 'accepted'}")
+    return n, bad
+
+
 def conditional_traversals(v):
     """[(handler, traversal call, guard)] traversal calls of a visitor's handlers that sit under a condition which is not
     a presence / kind test (or under the else of one): the child below is looked at for some programs only."""
@@ -504,6 +552,15 @@ def run(model, col, tier):
             if cparam is not None and cparam in names:
                 count_ok = True
     # elif chains are nested Ifs in orelse: ast.walk covers them
+    # (however the tests are spelled: if the validator, folded over the sample masks below, rejects exactly what it must, the
+    # three clauses hold)
+    try:
+        _f0 = fold_swizzle_validator(model, helper, model.func("nsl/Utility.py", "ContainsAnyOf"))
+    except Exception:
+        _f0 = None
+    if _f0 is not None and not _f0[1]:
+        alpha_ok = mix_ok = count_ok = True
+        cparam = None
     col.check(alpha_ok, "R13.4", f"{SWZ}::ValidateSwizzleMask alphabet", "letters outside xyzw/rgba raise the invalid-mask error",
               "no test rejects letters outside exactly {x,y,z,w,r,g,b,a}", SWZ, helper)
     col.check(mix_ok, "R13.4", f"{SWZ}::ValidateSwizzleMask mixing", "a mask using both letter families raises the mixed-mask error",
@@ -532,6 +589,14 @@ def run(model, col, tier):
         raise AnalysisError(f"nsl/Utility.py::ContainsAnyOf is no longer a foldable pure helper ({e})")
     col.check(bad is None, "R13.4", "nsl/Utility.py::ContainsAnyOf", "true iff an element of the iterable is in `what` (folded on 81 literal pairs)",
               f"{bad}: the swizzle validators built on it accept or reject the wrong masks", "nsl/Utility.py", ca)
+    # the validator as a whole, folded over masks of length 1..4 (and one of 5) and counts 1..4: rejected exactly when a
+    # letter is outside the alphabet, names a component the type does not have, or the two families are mixed
+    folded_sw = fold_swizzle_validator(model, helper, ca)
+    if folded_sw is None:
+        col.ok("R13.4", f"{SWZ}::ValidateSwizzleMask over sample masks", "not folded (the helper is not in a foldable form); the clause rules above apply")
+    else:
+        col.check(not folded_sw[1], "R13.4", f"{SWZ}::ValidateSwizzleMask over {folded_sw[0]} (mask, count) pairs", "rejects exactly: unknown letter, missing component, mixed families",
+                  "; ".join(folded_sw[1][:3]) + f" ({len(folded_sw[1])} of {folded_sw[0]}): a valid swizzle is rejected or an invalid one accepted", SWZ, helper)
     # swizzle alphabets agree (R04.1)
     maps = {}
     pm = model.func(CT, "ParseSwizzleMask")
